@@ -54,14 +54,14 @@ TokenAt(kind, s, i) ==
             <<IF kind # "generic" /\ UpperSeq(SubSeq(s, i, e)) \in Keywords THEN TKeyword ELSE TWord, e>>
   ELSE IF Digit(c) \/ c = 46 \/ (c = 45 /\ kind = "generic")
        THEN LET n == NumberAt(kind, s, i) IN
-            IF n[1] = 0 THEN <<TSymbol, SymEnd(kind, s, i)>>
+            IF n[1] = 0 THEN <<SymType(kind, SubSeq(s, i, SymEnd(kind, s, i))), SymEnd(kind, s, i)>>
             ELSE IF kind # "generic" THEN LET e2 == ExpEnd(s, n[1]) IN <<IF e2 > n[1] THEN TFloat ELSE n[2], e2>>
             ELSE <<n[2], n[1]>>
   ELSE IF c \in {34, 39}
        THEN <<IF kind # "generic" /\ c = 34 THEN TWord ELSE TQuoted, QuoteEnd(kind, s, i + 1, c)>>
   ELSE IF kind = "generic" /\ c = 35 THEN <<TComment, RunEnd(kind, s, i + 1, "noteol")>>
   ELSE IF kind # "generic" /\ c = 47 /\ At(s, i + 1) = 42 THEN <<TComment, CommentEnd(s, i + 2, i + 2)>>
-  ELSE IF c <= (IF kind = "generic" THEN 255 ELSE 65534) THEN <<TSymbol, SymEnd(kind, s, i)>>
+  ELSE IF c <= (IF kind = "generic" THEN 255 ELSE 65534) THEN <<SymType(kind, SubSeq(s, i, SymEnd(kind, s, i))), SymEnd(kind, s, i)>>
   ELSE <<TUnknown, i>>
 
 RECURSIVE RefFrom(_, _, _)
